@@ -2,6 +2,7 @@ import Dawn.Proofs.RunnerCycle
 import Dawn.Proofs.RunnerDeadlock
 import Dawn.Proofs.RunnerProgress
 import Dawn.Proofs.RunnerOrder
+import Dawn.Proofs.RunnerGate
 /-!
 # Runner: remaining helper facts — stability of finished targets, schedules as witnesses of reachability
 -/
